@@ -70,6 +70,27 @@ def interface_kind_dispatch(prog):
                                 break
                         except Unknown:
                             pass
+                    else:
+                        # a test on temporaries that were themselves chosen by the component type (the service type, a suffix):
+                        # evaluate them under the assumption, then the test
+                        bind2 = dict(bind)
+                        known = True
+                        assigned_ = {t_.id for a_ in ast.walk(gci) if isinstance(a_, ast.Assign) for t_ in a_.targets if isinstance(t_, ast.Name)}
+                        names_ = [x for x in names_ if x.id in assigned_]
+                        for x in names_:
+                            if x.id in bind2:
+                                continue
+                            try:
+                                bind2[x.id] = value_under(x, bind, fold_c, genv_, gci)
+                            except Unknown:
+                                known = False
+                        if known and names_:
+                            try:
+                                if not eval_test(n2, bind2, fold_c):
+                                    holds = False
+                                    break
+                            except Unknown:
+                                pass
                 if not holds:
                     continue
                 v = value_under(c.args[0], bind, fold_c, genv_, gci)
